@@ -544,6 +544,10 @@ class Engine:
             if isinstance(v, Opaque):
                 return v.child('idx', step[1], elem_type(v.ty)), None
             raise MirError(f'index into {vrepr(v)}')
+        if k in ('e', 'k'):
+            if isinstance(v, MapV):
+                return v.entries[step[1]][1 if k == 'e' else 0], None
+            raise MirError(f'map step on {vrepr(v)}')
         raise MirError(f'step {step}')
 
     def write(self, st, loc, path, val):
@@ -584,6 +588,9 @@ class Engine:
             if isinstance(v, Agg):
                 v.fields[step[1]] = self._set(st, v.fields[step[1]], path, i + 1, val, None)
                 return v
+        if k == 'e' and isinstance(v, MapV):
+            v.entries[step[1]][1] = self._set(st, v.entries[step[1]][1], path, i + 1, val, None)
+            return v
         raise MirError(f'write step {step} on {vrepr(v)}')
 
     # ------------------------------------------------------------------ operands / rvalues
@@ -1227,6 +1234,15 @@ class Engine:
         if visible:
             st.trace.append(Event(fn, short, self.snapshot_args(st, call.args), ret, len(st.frames), call.site))
             self.unknown_callees[short] = self.unknown_callees.get(short, 0) + 1
+        if not is_pure and not self.M.is_noise(fn):
+            for a in call.args:
+                if isinstance(a, Ref) and a.mut:
+                    try:
+                        tgt = self.read(st, a.loc, a.path)
+                    except (MirError, IndexError):
+                        tgt = None
+                    if isinstance(tgt, (SeqV, MapV, IterV)):
+                        raise MirError(f'unmodelled call {short} receives &mut to a model container ({type(tgt).__name__}): add a model')
         if self.havoc_mut and not is_pure:
             for a in call.args:
                 if isinstance(a, Opaque) and a.ty.startswith('&mut') and not a.over:
